@@ -44,12 +44,21 @@ def vec(elem, n: int):
 # ----------------------------------------------------------------------------
 
 CONVEX_FAMILIES = ("boxqp", "qp_quartic", "qp_softplus")
-ALL_FAMILIES = CONVEX_FAMILIES + ("rosenbrock", "sines", "badscale", "bench")
+ALL_FAMILIES = CONVEX_FAMILIES + ("rosenbrock", "sines", "badscale", "bench", "padded")
 
 
 @st.composite
 def objective_spec(draw, n: int, families: Sequence[str] = ALL_FAMILIES, kappa_max_exp: float = 4.0):
     fam = draw(st.sampled_from(list(families)))
+    if fam == "padded":
+        # an objective that ignores some of its variables (their gradient component is exactly zero)
+        if n < 2:
+            fam = "boxqp"
+        else:
+            k = draw(st.integers(1, n - 1))
+            idx = sorted(draw(st.permutations(list(range(n))))[:k])
+            base = draw(objective_spec(k, ("boxqp", "sines", "rosenbrock", "qp_quartic"), kappa_max_exp))
+            return {"family": "padded", "n": n, "idx": idx, "base": base}
     if fam == "rosenbrock" and n < 2:
         fam = "boxqp"
     if fam in CONVEX_FAMILIES:
